@@ -215,6 +215,24 @@ CHECKS = {
         tech="Lean 4 proof over a micro-step crash model + fault enumeration of the real code at every file-system call "
              "with fresh-process audit (correspondence of plan and of every crash state)",
         ref="5/C04"),
+    "C05": dict(
+        text="Partial. Each store operation is modelled in Lean as the steps between which another writer can get in "
+             "(preconditions evaluated / index.lock taken and index read, or current tree read / write), with "
+             "schedules interleaving any number of them. Proved: in one server process, where the store's lock makes "
+             "an operation one step, every schedule of any operations from any prior state is a sequential execution "
+             "(members and every result). Across processes the statement is false and the Lean file carries the "
+             "witnesses (two conditional updates both succeed; a bare-store create is lost; two members share a UID) "
+             "— recorded findings. Tied to /repo by stopping real operations at every yield point and running the "
+             "other one there (all single-pre-emption schedules of 6-12 operation pairs, both orders), in threads "
+             "sharing the store object and in separate processes; every outcome is judged against the real code run "
+             "sequentially in every order, and the model must predict results, members and verdict of every schedule.",
+        note="partial: pre-emption only at the yield points between the phases of an operation (inside a dulwich call "
+             "or a rename the operation is taken as atomic), two operations and one pre-emption per schedule; the GIL-free "
+             "orderings of C extensions are not explored. The thread-mode theorem rests on the lock of fix 3d6b046 being "
+             "held for the whole operation — that is what the thread schedules check on the real code.",
+        tech="Lean 4 invariant proof over schedules (thread mode) + Lean counterexamples (process mode) + controlled "
+             "scheduling of the real code in threads and processes with a sequential oracle",
+        ref="5/C05"),
 }
 
 NOT_YET = {}
